@@ -5,13 +5,15 @@
   instant a call was made (it attaches under the locks that decide which item it joins), `startClock` the instant
   the item's work function was called.  Safety parts are proved for every reachable state of an unbounded
   population of calls; the liveness part ("receives exactly one outcome") is proved as deadlock freedom
-  (`no_deadlock`: as long as a call is unanswered some step that changes the state is enabled) together with
-  `done_calls_answered`; a leads-to theorem under fairness is not proved (see DESIGN.md).
+  (`no_deadlock`: as long as a call is unanswered some step that changes the state is enabled) and as a leads-to
+  theorem (`every_call_is_eventually_answered`: along every run that does not neglect for ever the step a call is
+  waiting for, the call ends, with its outcome), by a ranking function over the ghost owner of the runner region.
 -/
 import BB.Proofs.ExclusiveCount
 import BB.Proofs.ExclusiveOutcome
 import BB.Proofs.ExclusiveProgress
 import BB.Proofs.ExclusiveStarted
+import BB.Proofs.ExclusiveLive
 
 namespace BB.Props.C10
 open BB.LTS BB.Exclusive
@@ -179,6 +181,109 @@ theorem no_deadlock (s : St) (hr : Reach sys s) (t : Nat)
       cases hc : (s.items (s.threads t).item).complete with
       | true => exact ⟨.wake t, deliverSt s t, t, by simp [sys, step, hp, enter, hrun, hc], by simp [deliverSt, upd_apply, hp]⟩
       | false => exact ⟨.wake t, runSt s t, t, by simp [sys, step, hp, enter, hrun, hc], by simp [runSt, upd_apply, hp]⟩
+
+/-- **every call is answered**: along every run — any number of calls, any interleaving — in which the step the
+    call is waiting for is not neglected for ever (weak fairness for `helpful t`: the call's own next step or, while
+    it is parked on a running item, the next step of the call that owns that item; "the work function returns" is
+    one of these steps and is the only assumption about work functions), a call that has been made ends, and a
+    blocking/async call ends holding an outcome -/
+theorem every_call_is_eventually_answered (t : Nat) (r : Run sys) (hfair : WeakFair sys (helpful t) r)
+    (i : Nat) (hmade : ((r.st i).threads t).pc ≠ .idle) :
+    ∃ j, i ≤ j ∧ ((r.st j).threads t).pc = .done ∧
+      (((r.st j).threads t).start = false → ∃ o, ((r.st j).threads t).outcome = some o) := by
+  obtain ⟨j, hj, hd⟩ := call_leadsTo_done t r hfair i hmade
+  exact ⟨j, hj, hd, fun hst => done_calls_answered _ (run_reach sys r j) t hd hst⟩
+
+/-- the ranking function is bounded: at most nine helpful steps separate a made call from its answer -/
+theorem answer_distance_bounded (t : Nat) (s : St) : mu t s ≤ 9 := by
+  have h1 : ∀ pc, tblItem pc ≤ 9 := fun pc => by cases pc <;> simp [tblItem]
+  have h2 : ∀ pc, tblNext pc ≤ 9 := fun pc => by cases pc <;> simp [tblNext]
+  unfold mu
+  split <;> try omega
+  unfold muWait
+  split
+  · cases s.owner with
+    | none => simp
+    | some u => simp only; split
+                · exact h1 _
+                · exact h2 _
+  · split <;> omega
+
+/-- non-vacuity of the fairness hypothesis: a run in which call 0 is made and which is weakly fair for it -/
+def demoActs : Nat → Option Act
+  | 0 => some (.call 0 7 false) | 1 => some (.wake 0) | 2 => some (.swap 0) | 3 => some (.startWork 0)
+  | 4 => some (.workReturn 0) | 5 => some (.clearNext 0) | _ => none
+
+def demoSt : Nat → St
+  | 0 => sys.init
+  | k + 1 => match demoActs k with
+    | some a => (sys.step (demoSt k) a).getD (demoSt k)
+    | none => demoSt k
+
+def demoRun : Run sys where
+  st := demoSt
+  act := demoActs
+  start := rfl
+  next := by
+    intro i
+    match i with
+    | 0 => rfl
+    | 1 => rfl
+    | 2 => rfl
+    | 3 => rfl
+    | 4 => rfl
+    | 5 => rfl
+    | k + 6 => rfl
+
+example : ((demoRun.st 1).threads 0).pc ≠ .idle := by decide
+
+theorem demoSt_final (k : Nat) : demoSt (k + 6) = demoSt 6 := by
+  induction k with
+  | zero => rfl
+  | succ k ih => show demoSt (k + 6) = demoSt 6; exact ih
+
+theorem demoRun_fair : WeakFair sys (helpful 0) demoRun := by
+  intro i hen
+  by_cases hi : i < 6
+  · refine ⟨i, Nat.le_refl _, ?_⟩
+    match i, hi with
+    | 0, _ =>
+      -- before the call is made the helpful step (`wake 0`) is not enabled
+      exfalso
+      obtain ⟨a, hH, he⟩ := hen 0 (Nat.le_refl _)
+      have : a = .wake 0 := hH
+      subst this
+      exact absurd he (by unfold enabled; decide)
+    | 1, _ => exact ⟨_, rfl, rfl⟩
+    | 2, _ => exact ⟨_, rfl, rfl⟩
+    | 3, _ => exact ⟨_, rfl, rfl⟩
+    | 4, _ => exact ⟨_, rfl, rfl⟩
+    | 5, _ => exact ⟨_, rfl, rfl⟩
+  · exfalso
+    obtain ⟨a, hH, he⟩ := hen i (Nat.le_refl _)
+    have hst : demoRun.st i = demoSt 6 := by
+      have := demoSt_final (i - 6); rwa [show i - 6 + 6 = i by omega] at this
+    rw [hst] at hH he
+    have : a = .wake 0 := hH
+    subst this
+    exact absurd he (by unfold enabled; decide)
+
+/-- the liveness theorem applies to the demonstration run -/
+example : ∃ j, 1 ≤ j ∧ ((demoRun.st j).threads 0).pc = .done ∧ ∃ o, ((demoRun.st j).threads 0).outcome = some o := by
+  obtain ⟨j, h1, h2, h3⟩ := every_call_is_eventually_answered 0 demoRun demoRun_fair 1 (by decide)
+  refine ⟨j, h1, h2, h3 ?_⟩
+  have := (micro_frame_start j)
+  exact this
+where
+  micro_frame_start (j : Nat) : ((demoRun.st j).threads 0).start = false := by
+    match j with
+    | 0 => rfl
+    | 1 => rfl
+    | 2 => rfl
+    | 3 => rfl
+    | 4 => rfl
+    | 5 => rfl
+    | k + 6 => show ((demoSt (k + 6)).threads 0).start = false; rw [demoSt_final]; rfl
 
 /-- non-vacuity: three calls, two executions; the call made during the first execution is answered by the second,
     the two coalesced calls get the same result, and the map is empty at the end -/
